@@ -34,3 +34,18 @@ package broadcast
 //@   assert@call postBlockChain: buildSuccess && arg3 == pd.block
 //@   ensures called(postBlockChain) ==> result
 //@   ensures result && old(len(pd.sTxHashes)) != 0 ==> called(postBlockChain)
+
+// ---- C33: the denied-peer bookkeeping (run in goroutines without recover) never panics -------------------
+// invariant: every entry is non-nil and its error count is not negative (the count is a shift amount)
+//@ pure func github.com/33cn/chain33/types.Now
+//@ pure func (time.Time).Unix
+//@ func (*validator).reduceDeniedCount [C33]
+//@   opt overflow=assumed
+//@   requires v.deniedPeers != nil
+//@   requires forall k Bytes :: has(v.deniedPeers, k) ==> v.deniedPeers[k] != nil && v.deniedPeers[k].count >= 0
+//@   ensures forall k Bytes :: has(v.deniedPeers, k) ==> v.deniedPeers[k] != nil && v.deniedPeers[k].count >= 0
+//@ func (*validator).addDeniedPeer [C33]
+//@   opt overflow=assumed
+//@   requires v.deniedPeers != nil
+//@   requires forall k Bytes :: has(v.deniedPeers, k) ==> v.deniedPeers[k] != nil && v.deniedPeers[k].count >= 0
+//@   ensures forall k Bytes :: has(v.deniedPeers, k) ==> v.deniedPeers[k] != nil && v.deniedPeers[k].count >= 0
